@@ -89,36 +89,42 @@ Section P.
   Notation state := (Fold.state V).
 
   (* ---- invariants *)
+  (* a recorded constant is trusted only for values whose const_value the folder may read (not in s_guard: with the
+     guard of _get_numpy_value in the source these are exactly the values that are not graph inputs) *)
   Definition inv (st : state) (e : env) : Prop :=
-    (forall x c v, assoc x (s_const V st) = Some c -> lookup e x = Some v -> v = c) /\
+    (forall x c v, assoc x (s_const V st) = Some c -> mem x (s_guard V st) = false -> lookup e x = Some v -> v = c) /\
     (forall y x v, sym_val V st y = Some x -> lookup e y = Some v -> lookup e x = Some v).
   Definition dom_ok (e : env) (bound : list vname) : Prop := forall x v, lookup e x = Some v -> In x bound.
   (* same recorded facts (what `inv` reads) *)
   Definition facts_eq (st st' : state) : Prop :=
-    (forall x, assoc x (s_const V st') = assoc x (s_const V st)) /\ forall x, sym_val V st' x = sym_val V st x.
+    (forall x, assoc x (s_const V st') = assoc x (s_const V st)) /\ (forall x, sym_val V st' x = sym_val V st x) /\
+    s_guard V st' = s_guard V st.
   (* facts unchanged outside X *)
   Definition ext (st st' : state) (X : list vname) : Prop :=
+    s_guard V st' = s_guard V st /\
     forall x, ~ In x X -> assoc x (s_const V st') = assoc x (s_const V st) /\ sym_val V st' x = sym_val V st x.
 
   Lemma facts_eq_refl st : facts_eq st st.
-  Proof. split; auto. Qed.
+  Proof. repeat split; auto. Qed.
   Lemma facts_eq_trans a b c : facts_eq a b -> facts_eq b c -> facts_eq a c.
-  Proof. intros [A1 A2] [B1 B2]. split; intro x; [rewrite B1; apply A1|rewrite B2; apply A2]. Qed.
+  Proof.
+    intros (A1 & A2 & A3) (B1 & B2 & B3). split; [|split]; [intro x; rewrite B1; apply A1|intro x; rewrite B2; apply A2|congruence].
+  Qed.
   Lemma facts_eq_inv st st' e : facts_eq st st' -> inv st e -> inv st' e.
   Proof.
-    intros [C S] [I1 I2]. split.
-    - intros x c v H. rewrite C in H. eauto.
+    intros (C & S & G) [I1 I2]. split.
+    - intros x c v H. rewrite C in H. rewrite G. eauto.
     - intros y x v H. rewrite S in H. eauto.
   Qed.
   Lemma facts_eq_ext st st' X : facts_eq st st' -> ext st st' X.
-  Proof. intros [C S] x _. auto. Qed.
+  Proof. intros (C & S & G). split; [exact G|]. intros x _. auto. Qed.
   Lemma ext_trans a b c X Y : ext a b X -> ext b c Y -> ext a c (X ++ Y).
   Proof.
-    intros A B x Hx. destruct (A x) as [A1 A2]; [intro H; apply Hx, in_or_app; auto|].
+    intros [GA A] [GB B]. split; [congruence|]. intros x Hx. destruct (A x) as [A1 A2]; [intro H; apply Hx, in_or_app; auto|].
     destruct (B x) as [B1 B2]; [intro H; apply Hx, in_or_app; auto|]. split; congruence.
   Qed.
   Lemma ext_weaken a b X Y : ext a b X -> incl X Y -> ext a b Y.
-  Proof. intros A I x Hx. apply A. intro H. apply Hx, I, H. Qed.
+  Proof. intros [G A] I. split; [exact G|]. intros x Hx. apply A. intro H. apply Hx, I, H. Qed.
 
   Lemma dom_ok_weaken e b b' : dom_ok e b -> incl b b' -> dom_ok e b'.
   Proof. intros D I x v H. apply I. eapply D; eauto. Qed.
@@ -154,7 +160,7 @@ Section P.
   Lemma inv_bind st e outs vs a : inv st e -> disjointb outs (fnames V st) = true -> bind outs vs e = Some a -> inv st a.
   Proof.
     intros [I1 I2] D B. pose proof (disjointb_spec _ _ D) as Dj. split.
-    - intros x c v H L. rewrite (lookup_bind_notin outs vs e a x B) in L; [eauto|].
+    - intros x c v H G L. rewrite (lookup_bind_notin outs vs e a x B) in L; [eauto|].
       intro Hin. exact (Dj x Hin (const_fname st x c H)).
     - intros y x v H L. destruct (sym_fname st y x H) as [Fy Fx].
       rewrite (lookup_bind_notin outs vs e a y B) in L by (intro Hin; exact (Dj y Hin Fy)).
@@ -173,7 +179,7 @@ Section P.
     eapply facts_eq_trans; [apply H|apply IH].
   Qed.
   Lemma facts_set_uses st u : facts_eq st (set_uses V st u).
-  Proof. split; reflexivity. Qed.
+  Proof. repeat split; reflexivity. Qed.
   Lemma facts_add_use st x c : facts_eq st (add_use V st x c).
   Proof. apply facts_set_uses. Qed.
   Lemma facts_del_use st x c : facts_eq st (del_use V st x c).
@@ -194,15 +200,15 @@ Section P.
   Lemma facts_add_nodes_uses news st : facts_eq st (fold_left (add_node_uses V) news st).
   Proof. apply fold_left_facts. intros; apply facts_add_node_uses. Qed.
   Lemma facts_set_inits st l : facts_eq st (set_inits V st l).
-  Proof. split; reflexivity. Qed.
+  Proof. repeat split; reflexivity. Qed.
   Lemma facts_clear cfg st c : facts_eq st (clear_unused_initializers V cfg st c).
   Proof. apply facts_set_inits. Qed.
   Lemma facts_register st l : facts_eq st (register_inits V st l).
   Proof. apply facts_set_inits. Qed.
   Lemma facts_set_dtype st x d : facts_eq st (set_dtype V st x d).
-  Proof. split; reflexivity. Qed.
+  Proof. repeat split; reflexivity. Qed.
   Lemma facts_set_shape st x d : facts_eq st (set_shape V st x d).
-  Proof. split; reflexivity. Qed.
+  Proof. repeat split; reflexivity. Qed.
   Lemma facts_set_dtype_if st x d : facts_eq st (set_dtype_if_absent V st x d).
   Proof. unfold set_dtype_if_absent. destruct (assoc x (s_dtype V st)); [apply facts_eq_refl|apply facts_set_dtype]. Qed.
   Lemma facts_set_shape_if st x d : facts_eq st (set_shape_if_absent V st x d).
@@ -237,13 +243,14 @@ Section P.
     (exists r, generic_fold isf st n = DKeep V r st) \/
     (exists y v, (generic_fold isf st n = DFoldInit V y v \/ generic_fold isf st n = DFoldConst V y v) /\
         is_onnx n "Constant" = false /\ is_control_flow n = false /\ all_const st n /\
+        (forall x, In x (present (n_ins n)) -> ~ In x (c_graph_inputs cfg)) /\
         n_outs n = [y] /\ ref_eval (n_dom n) (n_op n) (n_attrs n) (map (get_const V st) (n_ins n)) = Some [v]).
   Proof.
     unfold Fold.generic_fold.
     destruct (is_onnx n "Constant") eqn:E1; [left; eexists; reflexivity|].
     destruct (is_control_flow n) eqn:E2; [left; eexists; reflexivity|].
     destruct (is_non_det n); [left; eexists; reflexivity|].
-    destruct (existsb (fun x => mem x (c_graph_inputs cfg)) (present (n_ins n))); [left; eexists; reflexivity|].
+    destruct (existsb (fun x => mem x (c_graph_inputs cfg)) (present (n_ins n))) eqn:E4; [left; eexists; reflexivity|].
     match goal with |- context [if existsb ?f (present (n_ins n)) then DKeep V RNonConst st else _] =>
       destruct (existsb f (present (n_ins n))) eqn:E5 end; [left; eexists; reflexivity|].
     cbv zeta.
@@ -259,6 +266,9 @@ Section P.
     { intros x Hx. destruct (assoc x (s_const V st)) as [c|] eqn:A; [eauto|].
       assert (existsb (fun x0 => match assoc x0 (s_const V st) with Some _ => false | None => true end) (present (n_ins n)) = true)
         by (apply existsb_exists; exists x; rewrite A; auto). congruence. }
+    assert (NG : forall x, In x (present (n_ins n)) -> ~ In x (c_graph_inputs cfg)).
+    { intros x Hx Hg. assert (existsb (fun x0 => mem x0 (c_graph_inputs cfg)) (present (n_ins n)) = true)
+        by (apply existsb_exists; exists x; split; [exact Hx|apply mem_In; exact Hg]). congruence. }
     right. exists y, v. destruct isf; repeat split; auto.
   Qed.
 
@@ -278,13 +288,17 @@ Section P.
   (* the Identity evaluator records  output = input  and nothing else that `inv` reads *)
   Lemma pe_identity_facts st n :
     facts_eq st (pe_identity V st n) \/
-    (exists x y, in_at n 0 = Some x /\ out0 n = Some y /\ (forall z, assoc z (s_const V (pe_identity V st n)) = assoc z (s_const V st)) /\
+    (exists x y, in_at n 0 = Some x /\ out0 n = Some y /\ s_guard V (pe_identity V st n) = s_guard V st /\
+                 (forall z, assoc z (s_const V (pe_identity V st n)) = assoc z (s_const V st)) /\
                  sym_val V (pe_identity V st n) y = Some x /\
                  forall y', y' <> y -> sym_val V (pe_identity V st n) y' = sym_val V st y').
   Proof.
     unfold pe_identity. destruct (in_at n 0) as [x|]; [|left; apply facts_eq_refl].
     destruct (out0 n) as [y|]; [|left; apply facts_eq_refl].
     right. exists x, y. repeat split; auto.
+    - destruct (merge_shapes _ _) as [[?|]|]; cbn;
+        match goal with |- context [match assoc x ?l with _ => _ end] => destruct (assoc x l) end;
+        try match goal with |- context [match assoc y ?l with _ => _ end] => destruct (assoc y l) end; reflexivity.
     - intro z. destruct (merge_shapes _ _) as [[?|]|]; cbn;
         match goal with |- context [match assoc x ?l with _ => _ end] => destruct (assoc x l) end;
         try match goal with |- context [match assoc y ?l with _ => _ end] => destruct (assoc y l) end; reflexivity.
@@ -324,12 +338,13 @@ Section P.
 
   Definition fold_conditions (st : state) (n : node) (y : vname) (v : V) : Prop :=
     is_onnx n "Constant" = false /\ is_control_flow n = false /\ all_const st n /\
+    (forall x, In x (present (n_ins n)) -> ~ In x (c_graph_inputs cfg)) /\
     n_outs n = [y] /\ ref_eval (n_dom n) (n_op n) (n_attrs n) (map (get_const V st) (n_ins n)) = Some [v].
 
   Lemma fold_conditions_facts st st' n y v :
     (forall x, assoc x (s_const V st') = assoc x (s_const V st)) -> fold_conditions st' n y v -> fold_conditions st n y v.
   Proof.
-    intros C (A & B & D & E & F). unfold fold_conditions, all_const in *. repeat split; auto.
+    intros C (A & B & D & NG & E & F). unfold fold_conditions, all_const in *. repeat split; auto.
     - intros x Hx. rewrite <- C. auto.
     - rewrite <- F. f_equal. apply map_ext. intros [x|]; cbn; [symmetry; apply C|reflexivity].
   Qed.
@@ -347,7 +362,7 @@ Section P.
         exact Cnd. }
     destruct (registered (n_dom n) (n_op n) ver).
     - destruct (String.eqb (n_op n) "Identity").
-      + apply G. destruct (pe_identity_facts st n) as [[C _]|(x & y0 & _ & _ & C & _)]; exact C.
+      + apply G. destruct (pe_identity_facts st n) as [[C _]|(x & y0 & _ & _ & _ & C & _)]; exact C.
       + destruct (String.eqb (n_op n) "If").
         * destruct (pe_if st n); try (apply G; reflexivity). intros [H|H]; discriminate.
         * pose proof (Hpe st n) as P. destruct (pe st n) as [st1|st1 R'|? ? ?| |]; try (intros [H|H]; discriminate).
@@ -427,16 +442,17 @@ Section P.
   Qed.
 
   Lemma consts_lookup st e ins vs : inv st e -> (forall x, In x (present ins) -> exists c, assoc x (s_const V st) = Some c) ->
+    (forall x, In x (present ins) -> mem x (s_guard V st) = false) ->
     lookup_opts e ins = Some vs -> vs = map (get_const V st) ins.
   Proof.
-    intros [I1 _]. revert vs. induction ins as [|[x|] t IH]; intros vs AC; cbn.
+    intros [I1 _]. revert vs. induction ins as [|[x|] t IH]; intros vs AC NG; cbn.
     - intro H; inversion H; reflexivity.
     - destruct (lookup e x) as [v|] eqn:L; [|discriminate].
       destruct (lookup_opts e t) as [r|] eqn:R; [|discriminate]. intro H; inversion H; subst.
-      destruct (AC x (or_introl eq_refl)) as [c A]. rewrite A. rewrite (I1 x c v A L).
-      f_equal. apply IH; [|reflexivity]. intros y Hy. apply AC. right. exact Hy.
+      destruct (AC x (or_introl eq_refl)) as [c A]. rewrite A. rewrite (I1 x c v A (NG x (or_introl eq_refl)) L).
+      f_equal. apply IH; [| |reflexivity]; intros y Hy; [apply AC|apply NG]; right; exact Hy.
     - destruct (lookup_opts e t) as [r|] eqn:R; cbn; [|discriminate]. intro H; inversion H; subst.
-      f_equal. apply IH; [|reflexivity]. exact AC.
+      f_equal. apply IH; [exact AC|exact NG|reflexivity].
   Qed.
 
   Definition const_node (y : vname) (v : V) : node := mk "Constant" [] [y] [("value"%string, attr_of_val v)].
@@ -448,13 +464,15 @@ Section P.
   Qed.
 
   (* replacing a node whose inputs are all known constants by the constant the reference evaluator computed *)
-  Lemma fold_step (ev : evaluator) st e n y v a : inv st e -> fold_conditions st n y v -> eval_node ev e n = Some a ->
-    a = (y, v) :: e.
+  Lemma fold_step (ev : evaluator) st e n y v a : inv st e -> incl (s_guard V st) (c_graph_inputs cfg) ->
+    fold_conditions st n y v -> eval_node ev e n = Some a -> a = (y, v) :: e.
   Proof.
-    intros I (C1 & C2 & AC & O & R) H.
+    intros I GI (C1 & C2 & AC & NG & O & R) H.
+    assert (NG' : forall x, In x (present (n_ins n)) -> mem x (s_guard V st) = false).
+    { intros x Hx. apply mem_false. intro Hg. exact (NG x Hx (GI x Hg)). }
     assert (NS : n_subs n = []) by (unfold is_control_flow in C2; destruct (n_subs n); [reflexivity|discriminate]).
     destruct (eval_nosubs ev e n a NS H) as [vs [rs [L [S B]]]].
-    rewrite (consts_lookup st e _ _ I AC L) in S. rewrite (ref_agrees _ _ _ _ _ R) in S. inversion S; subst rs.
+    rewrite (consts_lookup st e _ _ I AC NG' L) in S. rewrite (ref_agrees _ _ _ _ _ R) in S. inversion S; subst rs.
     rewrite O in B. cbn in B. inversion B. reflexivity.
   Qed.
 
@@ -493,7 +511,7 @@ Section P.
     rewrite (constant_step ev e n y c a CV H) in *.
     eapply facts_eq_inv; [eapply facts_eq_trans; [apply facts_set_shape|apply facts_set_dtype]|].
     destruct I as [I1 I2]. split.
-    - intros x c' v A L. unfold set_const in A. cbn in A. cbn in L.
+    - intros x c' v A G L. unfold set_const in A. cbn in A. cbn in L.
       destruct (String.eqb x y) eqn:E.
       + inversion A; inversion L; subst; reflexivity.
       + eapply I1; eauto. cbn. rewrite E. exact L.
@@ -504,7 +522,7 @@ Section P.
   Proof.
     unfold Fold.note_constant. destruct (constant_value n) as [[y c]|] eqn:CV; [|apply facts_eq_ext, facts_eq_refl].
     destruct (constant_value_spec n y c CV) as (_ & _ & Ou & _). rewrite Ou.
-    intros x Hx. split; [|reflexivity]. cbn. destruct (String.eqb x y) eqn:E; [|reflexivity].
+    split; [reflexivity|]. intros x Hx. split; [|reflexivity]. cbn. destruct (String.eqb x y) eqn:E; [|reflexivity].
     apply String.eqb_eq in E. subst. exfalso. apply Hx. left. reflexivity.
   Qed.
 
@@ -639,7 +657,7 @@ Section P.
     (forall k, In k (fnames V st) -> ~ In k (map fst r)) ->
     facts_eq st (rename_state_merge V r st).
   Proof.
-    intros HC HS HF. split.
+    intros HC HS HF. split; [|split; [|reflexivity]].
     - intro x. cbn. rewrite (rename_key_id r _ HC). apply assoc_app_idem.
     - intro x. unfold sym_val. cbn. rewrite (rename_key_id r _ HS).
       rewrite (assoc_map_snd (rename_symv r)). destruct (assoc x (s_sym V st)) as [[t| |]|] eqn:A; cbn; try reflexivity.
@@ -654,11 +672,11 @@ Section P.
   Lemma bool_value_truth st e x c cv : inv st e -> bool_value st (Some x) = Some c -> lookup e x = Some cv -> truth cv = Some c.
   Proof.
     intros [I1 _]. unfold Fold.bool_value, Fold.numpy_value, get_const.
-    destruct (mem x (s_guard V st)); [discriminate|].
+    destruct (mem x (s_guard V st)) eqn:Gx; [discriminate|].
     destruct (assoc x (s_const V st)) as [v|] eqn:A; [|discriminate]. cbn.
     destruct (Z.eqb (v_size V v_dims v) 1 && Z.eqb (v_dtype v) DT_BOOL) eqn:C; [|discriminate].
     destruct (v_ints v) as [[|b [|? ?]]|] eqn:VI; try discriminate. intro H; inversion H; subst. intro L.
-    rewrite (I1 x v cv A L). apply andb_prop in C. destruct C as [_ C]. apply Z.eqb_eq in C.
+    rewrite (I1 x v cv A Gx L). apply andb_prop in C. destruct C as [_ C]. apply Z.eqb_eq in C.
     apply truth_agrees; assumption.
   Qed.
 
@@ -792,7 +810,7 @@ Section P.
   Lemma inv_app st e (b : env) : inv st e -> disjointb (map fst b) (fnames V st) = true -> inv st (b ++ e).
   Proof.
     intros [I1 I2] D. pose proof (disjointb_spec _ _ D) as Dj. split.
-    - intros x c v H L. rewrite (lookup_app_notin V sem truth trip of_nat limit b e x) in L; [eauto|].
+    - intros x c v H G L. rewrite (lookup_app_notin V sem truth trip of_nat limit b e x) in L; [eauto|].
       intro Hin. exact (Dj x Hin (const_fname st x c H)).
     - intros y x v H L. destruct (sym_fname st y x H) as [Fy Fx].
       rewrite (lookup_app_notin V sem truth trip of_nat limit b e y) in L by (intro Hin; exact (Dj y Hin Fy)).
@@ -803,23 +821,23 @@ Section P.
 
   Lemma inv_unbound_ext st st' X e : inv st e -> ext st st' X -> (forall x, In x X -> lookup e x = None) -> inv st' e.
   Proof.
-    intros [I1 I2] E U. split.
-    - intros x c v A L. destruct (in_dec string_dec x X) as [i|n]; [rewrite (U x i) in L; discriminate|].
-      rewrite (proj1 (E x n)) in A. eauto.
+    intros [I1 I2] [G E] U. split.
+    - intros x c v A Gx L. destruct (in_dec string_dec x X) as [i|n]; [rewrite (U x i) in L; discriminate|].
+      rewrite (proj1 (E x n)) in A. rewrite G in Gx. eauto.
     - intros y x v S L. destruct (in_dec string_dec y X) as [i|n]; [rewrite (U y i) in L; discriminate|].
       rewrite (proj2 (E y n)) in S. eauto.
   Qed.
 
   Lemma inv_set_const st e y v : inv st ((y, v) :: e) -> inv (set_const V st y v) ((y, v) :: e).
   Proof.
-    intros [I1 I2]. split; [|exact I2]. intros x c w A L. cbn in A. cbn in L.
+    intros [I1 I2]. split; [|exact I2]. intros x c w A G L. cbn in A. cbn in L.
     destruct (String.eqb x y) eqn:E.
     - inversion A; inversion L; subst; reflexivity.
-    - eapply I1; [exact A|]. cbn. rewrite E. exact L.
+    - eapply I1; [exact A|exact G|]. cbn. rewrite E. exact L.
   Qed.
   Lemma ext_set_const st y v : ext st (set_const V st y v) [y].
   Proof.
-    intros x Hx. split; [|reflexivity]. cbn. destruct (String.eqb x y) eqn:E; [|reflexivity].
+    split; [reflexivity|]. intros x Hx. split; [|reflexivity]. cbn. destruct (String.eqb x y) eqn:E; [|reflexivity].
     apply String.eqb_eq in E. subst. exfalso. apply Hx. left. reflexivity.
   Qed.
 
@@ -837,7 +855,7 @@ Section P.
     forall bound st subs st' subs' news defd tr,
       visit_subs bound st subs = OK (st', subs', news, defd, tr) ->
       ext st st' defd /\
-      forall F e, inv st e -> dom_ok e bound -> (forall x, In x defd -> ~ In x bound) ->
+      forall F e, inv st e -> dom_ok e bound -> incl (s_guard V st) (c_graph_inputs cfg) -> (forall x, In x defd -> ~ In x bound) ->
         forall name sg, find_sub name subs = Some sg ->
           exists sg', find_sub name subs' = Some sg' /\
             forall args r, eval_graph F e sg args = Some r -> eval_graph F e sg' args = Some r.
@@ -868,17 +886,19 @@ Section P.
     Theorem visit_nodes_sound : forall fuel isf bound st inits work st' ns' inits' news defd tr,
       visit_nodes fuel isf bound st inits work = OK (st', ns', inits', news, defd, tr) ->
       ext st st' defd /\
-      forall F e e1, inv st e -> dom_ok e bound -> run (eval_graph F) e work = Some e1 ->
+      forall F e e1, inv st e -> dom_ok e bound -> incl (s_guard V st) (c_graph_inputs cfg) -> run (eval_graph F) e work = Some e1 ->
         exists e1', run (eval_graph F) e ns' = Some e1' /\ sub_env e1 e1' /\ inv st' e1' /\ dom_ok e1' (defd ++ bound).
     Proof.
       induction fuel as [|f IH]; intros isf bound st inits work st' ns' inits' news defd tr H; [discriminate|].
       destruct work as [|n0 rest]; cbn [Fold.visit_nodes] in H.
       { inversion H; subst. split; [apply facts_eq_ext, facts_eq_refl|].
-        intros F e e1 I D R. cbn in R. inversion R; subst. exists e1. cbn.
+        intros F e e1 I D _ R. cbn in R. inversion R; subst. exists e1. cbn.
         split; [reflexivity|]. split; [apply sub_refl|]. split; [exact I|exact D]. }
       cbv zeta in H.
       set (st0 := subst_uses V st n0) in *. set (n := subst_node V st n0) in *. set (st1 := note_constant st0 n) in *.
       assert (F0 : facts_eq st st0) by apply facts_subst_uses.
+      assert (G1 : s_guard V st1 = s_guard V st).
+      { unfold st1. rewrite (proj1 (note_constant_ext st0 n)). exact (proj2 (proj2 F0)). }
       destruct (subst_node_fields st n0) as (Fd & Fo & Fu & Fa & Fs). fold n in Fd, Fo, Fu, Fa, Fs.
       destruct (decide isf st1 n) as [r st2|y v|y v|st2 R|st2 R moved|] eqn:DE; [| | | | |discriminate].
       - (* keep *)
@@ -893,15 +913,15 @@ Section P.
         pose proof (keep_ok_outs _ _ KO) as KO1.
         assert (EX2 : ext st1 st2 (n_outs n)).
         { destruct KS as [FE|O Dm ->]; [apply facts_eq_ext; exact FE|].
-          destruct (pe_identity_facts st1 n) as [FE|(x & y & Ix & Oy & C & S1 & S2)]; [apply facts_eq_ext; exact FE|].
-          intros z Hz. split; [apply C|]. apply S2. intro E. subst z. apply Hz.
+          destruct (pe_identity_facts st1 n) as [FE|(x & y & Ix & Oy & Gd & C & S1 & S2)]; [apply facts_eq_ext; exact FE|].
+          split; [exact Gd|]. intros z Hz. split; [apply C|]. apply S2. intro E. subst z. apply Hz.
           unfold out0 in Oy. destruct (n_outs n); [discriminate|]. inversion Oy; subst. left; reflexivity. }
         split.
         { eapply ext_weaken.
           - eapply ext_trans; [apply (facts_eq_ext _ _ [] F0)|].
             eapply ext_trans; [apply note_constant_ext|]. eapply ext_trans; [exact EX2|]. eapply ext_trans; [exact EX3|exact EX4].
           - incl_solve. }
-        intros F e e1 I D Run. cbn [Sem.run] in Run.
+        intros F e e1 I D GI Run. cbn [Sem.run] in Run.
         destruct (eval_node (eval_graph F) e n0) as [en|] eqn:E0; [|discriminate].
         pose proof (subst_node_sound (eval_graph F) st e n0 en I E0) as En. fold n in En.
         destruct (eval_node_shape V sem truth trip of_nat of_bool limit _ _ _ _ En) as [b [Eb Hb]].
@@ -911,13 +931,13 @@ Section P.
         assert (Dn : dom_ok en (n_outs n ++ bound)) by (subst en; rewrite <- Hb; apply dom_ok_app; exact D).
         assert (I2n : inv st2 en).
         { destruct KS as [FE|O Dm ->]; [eapply facts_eq_inv; eauto|].
-          destruct (pe_identity_facts st1 n) as [FE|(x & y & Ix & Oy & C & S1 & S2)]; [eapply facts_eq_inv; eauto|].
+          destruct (pe_identity_facts st1 n) as [FE|(x & y & Ix & Oy & Gd & C & S1 & S2)]; [eapply facts_eq_inv; eauto|].
           destruct (keep_ok_identity _ _ KO O) as (x' & y' & In' & On' & Sn' & Nxy).
           unfold in_at in Ix. rewrite In' in Ix. cbn in Ix. inversion Ix; subst x'.
           unfold out0 in Oy. rewrite On' in Oy. inversion Oy; subst y'.
           destruct (identity_step (eval_graph F) e n x y en Dm O In' On' Sn' En) as [w [Lw Een]].
           destruct I1n as [J1 J2]. split.
-          - intros z c u A L. rewrite C in A. eauto.
+          - intros z c u A Gz L. rewrite C in A. rewrite Gd in Gz. eauto.
           - intros z t u S L. destruct (string_dec z y) as [->|Nz].
             + rewrite S1 in S. inversion S; subst t. rewrite Een in *. cbn in L. rewrite String.eqb_refl in L. inversion L; subst u.
               cbn. destruct (String.eqb x y) eqn:E; [apply String.eqb_eq in E; contradiction|exact Lw].
@@ -941,10 +961,12 @@ Section P.
               - exfalso. destruct (keep_ok_identity _ _ KO O) as (_ & _ & _ & _ & Sn' & _). cbn in Sn'. discriminate. }
             apply (REF F e I2e).
             + eapply dom_ok_weaken; [exact D|]. incl_solve.
+            + rewrite (proj1 EX2), G1. exact GI.
             + intros z Hz. exact (disjointb_spec _ _ DJ z Hz).
           - rewrite B in B'. inversion B'; subst a'. rewrite map_option_id in E'. exact E'. }
         destruct (SEM4 F en e1 I3n) as [e1' (R' & S' & I' & D')].
         { eapply dom_ok_weaken; [exact Dn|]. incl_solve. }
+        { rewrite (proj1 EX3), (proj1 EX2), G1. exact GI. }
         { exact Run. }
         exists e1'. cbn [app Sem.run]. rewrite En'.
         split; [exact R'|]. split; [exact S'|]. split; [exact I'|].
@@ -969,11 +991,12 @@ Section P.
         { eapply ext_weaken.
           - eapply ext_trans; [apply (facts_eq_ext _ _ [] F0)|]. eapply ext_trans; [exact EX3|exact EX4].
           - incl_solve. }
-        intros F e e1 I D Run. cbn [Sem.run] in Run.
+        intros F e e1 I D GI Run. cbn [Sem.run] in Run.
         destruct (eval_node (eval_graph F) e n0) as [en|] eqn:E0; [|discriminate].
         pose proof (subst_node_sound (eval_graph F) st e n0 en I E0) as En. fold n in En.
         assert (I0 : inv st0 e) by (eapply facts_eq_inv; eauto).
-        assert (Een : en = (y, v) :: e) by (eapply fold_step; [|exact FC|exact En]; rewrite E1; exact I0).
+        assert (G0 : incl (s_guard V st0) (c_graph_inputs cfg)) by (rewrite (proj2 (proj2 F0)); exact GI).
+        assert (Een : en = (y, v) :: e) by (eapply fold_step; [| |exact FC|exact En]; rewrite E1; [exact I0|exact G0]).
         assert (I3n : inv st3 en).
         { unfold st3. rewrite E1, Een.
           eapply facts_eq_inv.
@@ -983,6 +1006,7 @@ Section P.
             change ((y, v) :: e) with ([(y, v)] ++ e). apply inv_app; [exact I0|exact KO]. }
         destruct (SEM4 F en e1 I3n) as [e1' (R' & S' & I' & D')].
         { rewrite Een. change ((y, v) :: e) with ([(y, v)] ++ e). apply (dom_ok_app e bound [(y, v)] D). }
+        { rewrite (proj1 EX3). exact G0. }
         { exact Run. }
         exists e1'. cbn [app Sem.run]. fold (const_node y v). rewrite eval_const_node, <- Een.
         split; [exact R'|]. split; [exact S'|]. split; [exact I'|].
@@ -999,14 +1023,16 @@ Section P.
         split.
         { cbn [app]. eapply ext_weaken with (X := [] ++ defd2); [|incl_solve].
           eapply ext_trans; [apply facts_eq_ext; exact FE|exact EX4]. }
-        intros F e e1 I D Run. cbn [Sem.run] in Run.
+        intros F e e1 I D GI Run. cbn [Sem.run] in Run.
         destruct (eval_node (eval_graph F) e n0) as [en|] eqn:E0; [|discriminate].
         pose proof (subst_node_sound (eval_graph F) st e n0 en I E0) as En. fold n in En.
         assert (I0 : inv st0 e) by (eapply facts_eq_inv; eauto).
-        assert (Een : en = (y, v) :: e) by (eapply fold_step; [|exact FC|exact En]; rewrite E1; exact I0).
+        assert (G0 : incl (s_guard V st0) (c_graph_inputs cfg)) by (rewrite (proj2 (proj2 F0)); exact GI).
+        assert (Een : en = (y, v) :: e) by (eapply fold_step; [| |exact FC|exact En]; rewrite E1; [exact I0|exact G0]).
         destruct (SEM4 F e e1) as [e1' (R' & S' & I' & D')].
         { eapply facts_eq_inv; eauto. }
         { exact D. }
+        { rewrite (proj2 (proj2 FE)). exact GI. }
         { cbn [Sem.run]. fold (const_node y v). rewrite eval_const_node, <- Een. exact Run. }
         exists e1'. cbn [app]. split; [exact R'|]. split; [exact S'|]. split; [exact I'|exact D'].
       - (* replaced by the nodes of a partial evaluator *)
@@ -1026,7 +1052,7 @@ Section P.
         split.
         { cbn [app]. eapply ext_weaken with (X := [] ++ defd2); [|incl_solve].
           eapply ext_trans; [apply facts_eq_ext; exact FE|exact EX4]. }
-        intros F e e1 I D Run. cbn [Sem.run] in Run.
+        intros F e e1 I D GI Run. cbn [Sem.run] in Run.
         destruct (eval_node (eval_graph F) e n0) as [en|] eqn:E0; [|discriminate].
         pose proof (subst_node_sound (eval_graph F) st e n0 en I E0) as En. fold n in En.
         assert (I1 : inv st1 e) by (rewrite E1; eapply facts_eq_inv; eauto).
@@ -1036,6 +1062,7 @@ Section P.
         destruct (SEM4 F e e1m) as [e1' (R' & S' & I' & D')].
         { eapply facts_eq_inv; eauto. }
         { exact D. }
+        { rewrite (proj2 (proj2 FE)). exact GI. }
         { rewrite (run_app V sem truth trip of_nat of_bool limit). rewrite Rb. exact Rm. }
         exists e1'. cbn [app]. split; [exact R'|]. split; [eapply sub_trans; eauto|]. split; [exact I'|exact D'].
       - (* If branch inlined *)
@@ -1054,17 +1081,19 @@ Section P.
           unfold st3. eapply facts_eq_trans; [exact F0|]. rewrite <- E1.
           eapply facts_eq_trans; [exact (inline_facts _ _ _ _ _ _ PI IO)|].
           destruct isf; [apply facts_eq_refl|apply facts_clear]. }
-        intros F e e1 I D Run. cbn [Sem.run] in Run.
+        intros F e e1 I D GI Run. cbn [Sem.run] in Run.
         destruct (eval_node (eval_graph F) e n0) as [en|] eqn:E0; [|discriminate].
         pose proof (subst_node_sound (eval_graph F) st e n0 en I E0) as En. fold n in En.
         assert (I1 : inv st1 e) by (rewrite E1; eapply facts_eq_inv; eauto).
         destruct (inline_step F st1 bound n st2 R moved e en PI Op Dm IO I1 D En) as [FE12 [b [Rb Sb]]].
         destruct (run_mono V sem truth trip of_nat of_bool limit (eval_graph F) rest
                     (eval_graph_mono V sem truth trip of_nat of_bool limit F) en b e1 Sb Run) as [e1m [Rm Sm]].
+        assert (FE13 : facts_eq st1 st3).
+        { unfold st3. eapply facts_eq_trans; [exact FE12|]. destruct isf; [apply facts_eq_refl|apply facts_clear]. }
         destruct (SEM4 F e e1m) as [e1' (R' & S' & I' & D')].
-        { unfold st3. eapply facts_eq_inv; [|exact I1]. eapply facts_eq_trans; [exact FE12|].
-          destruct isf; [apply facts_eq_refl|apply facts_clear]. }
+        { eapply facts_eq_inv; [exact FE13|exact I1]. }
         { exact D. }
+        { rewrite (proj2 (proj2 FE13)), G1. exact GI. }
         { rewrite (run_app V sem truth trip of_nat of_bool limit). rewrite Rb. exact Rm. }
         exists e1'. cbn [app]. split; [exact R'|]. split; [eapply sub_trans; eauto|]. split; [exact I'|exact D'].
     Qed.
@@ -1080,17 +1109,18 @@ Section P.
   Theorem fold_pass_sound : pe_ok -> forall visit_subs, subs_spec visit_subs ->
     forall fuel bound st gi inits nodes outs st' ns' inits' news defd tr,
       visit_nodes_p visit_subs fuel false (gi ++ bound) st inits nodes = OK (st', ns', inits', news, defd, tr) ->
+      incl (s_guard V st) (c_graph_inputs cfg) ->
       forall F outer args r,
         (forall e0, bind gi args outer = Some e0 -> inv st e0 /\ dom_ok e0 (gi ++ bound)) ->
         eval_graph (S F) outer (Graph gi inits nodes outs) args = Some r ->
         eval_graph (S F) outer (Graph gi inits' ns' outs) args = Some r.
   Proof.
-    intros Hpe visit_subs Hs fuel bound st gi inits nodes outs st' ns' inits' news defd tr H F outer args r H0.
+    intros Hpe visit_subs Hs fuel bound st gi inits nodes outs st' ns' inits' news defd tr H GI F outer args r H0.
     cbn [Sem.eval_graph]. unfold Sem.eval_body. cbn [g_ins g_nodes g_outs].
     destruct (bind gi args outer) as [e0|] eqn:B; [|discriminate]. destruct (H0 e0 eq_refl) as [I D].
     destruct (run (eval_graph F) e0 nodes) as [e1|] eqn:R; [|discriminate].
     destruct (visit_nodes_sound Hpe visit_subs Hs _ _ _ _ _ _ _ _ _ _ _ _ H) as [_ SEM].
-    destruct (SEM F e0 e1 I D R) as [e1' (R' & S' & _ & _)]. rewrite R'.
+    destruct (SEM F e0 e1 I D GI R) as [e1' (R' & S' & _ & _)]. rewrite R'.
     apply (sub_lookups V e1 e1' outs r S').
   Qed.
 
@@ -1101,7 +1131,7 @@ Section P.
   Lemma subs_id_spec : subs_spec subs_id.
   Proof.
     intros bound st subs st' subs' news defd tr H. unfold subs_id in H. inversion H; subst.
-    split; [apply facts_eq_ext, facts_eq_refl|]. intros F e _ _ _ name sg Fs. exists sg. auto.
+    split; [apply facts_eq_ext, facts_eq_refl|]. intros F e _ _ _ _ name sg Fs. exists sg. auto.
   Qed.
 
   (* identity substitution, If inlining and dead node removal, named as in the design *)
